@@ -1,7 +1,7 @@
 //! C04 -- terminates without aborting (unit level). Besides the harnesses shared with the other
 //! properties (every harness checks Rust-level panics, arithmetic overflow and loop bounds), these
 //! drop the stage contracts: arbitrary (small) counters, cursors anywhere.
-use crate::c15::{x_body, Src, LIST1, LIST2, LIST3, LIST4};
+use crate::c15::{b_body, Src, LIST1, LIST2, LIST3, LIST4};
 use crate::common::*;
 use crate::{cover, cursor_harness};
 use pasfmt_core::lang::*;
@@ -12,9 +12,17 @@ pub const LIST5: Src = Src { toks: [
     ("  {a\n b}", 2, RawTokenType::Comment(CommentKind::MultilineBlock), TokenType::Comment(CommentKind::MultilineBlock)),
     ("\n", 1, RawTokenType::Eof, TokenType::Eof),
 ] };
+/// A multi-line string literal as the first token, deeply indented interior.
+pub const LIST6: Src = Src { toks: [
+    ("\'\'\'\n  x\n  \'\'\'", 0, RawTokenType::TextLiteral(TextLiteralKind::MultiLine), TokenType::TextLiteral(TextLiteralKind::MultiLine)),
+    (";", 0, RawTokenType::Op(OperatorKind::Semicolon), TokenType::Op(OperatorKind::Semicolon)),
+    ("\n", 1, RawTokenType::Eof, TokenType::Eof),
+] };
 
+// relocate_cursors (from the reference attach state of the given cursor) returns -- no panic, no
+// arithmetic overflow, loops bounded -- for ARBITRARY small counters (no stage contract).
 macro_rules! nc { ($($name: ident => ($src: expr, $c: expr)),* $(,)?) => {$(
-    cursor_harness! { fn $name() unwind(9) { x_body($src, $c, false, 2, 4, false, false); cover!(true, "returned"); } }
+    cursor_harness! { fn $name() unwind(20) { b_body($src, $c, $c, false, 2, 4, false, false) } }
 )*}}
 nc! {
     c04_cursor_nocontract_list1_c3 => (LIST1, 3),
@@ -28,5 +36,7 @@ nc! {
     c04_cursor_nocontract_list5_c3 => (LIST5, 3),
     c04_cursor_nocontract_list5_c4 => (LIST5, 4),
     c04_cursor_nocontract_list5_c6 => (LIST5, 6),
+    c04_cursor_nocontract_list6_c4 => (LIST6, 4),
+    c04_cursor_nocontract_list6_c9 => (LIST6, 9),
     c04_cursor_nocontract_list1_cmax => (LIST1, u32::MAX),
 }
